@@ -306,7 +306,29 @@ print("[" + %(X)s + "]", "[" + other + "]")
 %(X)s = %(X)s + "x"
 print(%(X)s, len(%(X)s))
 '''
+# a global that is only read, next to functions that swap and re-define other globals: the multi-assignment temporaries and helper
+# variables of a FUNCTION are prefixed, so of the back-end's names only the return registers and the shell's own variables collide
+# (measured on the unchanged tree; round 9: C10-A, the temporaries of a function's multi-assignment to globals made global)
+ROLE_TEMPLATES["global-beside-function-multi-assignment"] = '''%(X)s := 7
+a := 1
+b := 2
+func swap() {
+	a, b = b, a
+}
+func three() (int, int, int) {
+	return 1, 2, 3
+}
+func spread() {
+	p, q, r := three()
+	a, b = a + p, b + q + r
+}
+swap()
+spread()
+print(a, b, %(X)s)
+'''
+ROLE_REGIONS = {"global-beside-function-multi-assignment": r"_rv\d+"}
 ROLE_EXPECTED = {
+    "global-beside-function-multi-assignment": ["3 6 7"],
     "global-string-empty": ["[] []", "x 1"],
     "global-scalar": ["0 0 6", "2 0 6", "0 1", "1 2", "2 3", "3 0", "4 9", "6 3 5 el h 5 k! 4 3 0"],
     "global-slice": ["0 a", "1 b", "2 ", "3 z", "4 2 el 6 k! b |"],
@@ -425,11 +447,11 @@ def run(res, b, tier, seed):
     # directed programs (written from the property text): the same identifier spelled in several scopes at once
     import semprop
     for name, j in semprop.load_corpus("C02"):
-        cases.append(pipeline.Case("corpus-" + name, {"main.tsh": j["src"].encode()},
+        cases.append(pipeline.Case("corpus-" + name, semprop.corpus_files(j),
                                    meta=dict(expected_out=j["stdout"], expected_status=j["status"], src=j["src"], original=j["src"],
                                              renaming="directed program: one spelling used in several scopes", reserved=[])))
     for name, j in semprop.load_corpus("C10"):
-        cases.append(pipeline.Case("corpus-" + name, {"main.tsh": j["src"].encode()},
+        cases.append(pipeline.Case("corpus-" + name, semprop.corpus_files(j),
                                    meta=dict(expected_out=j["stdout"], expected_status=j["status"], src=j["src"], original=j["src"],
                                              renaming="directed program: " + j.get("note", ""), reserved=[])))
     # identifiers of the main file spelled like (private or public) names of an imported file, like its alias, like names of std/strings:
@@ -458,7 +480,7 @@ def run(res, b, tier, seed):
     import sys as _sys
     _sys.path.insert(0, _os.path.dirname(__file__))
     import c09
-    for name, files, want in c09.same_base_name_cases():
+    for name, files, want in c09.same_base_name_cases() + [g for g in c09.global_cases() if g[0].startswith("local-shadows")]:
         cases.append(pipeline.Case("sb-" + name, {k: v.encode() for k, v in files.items()},
                                    meta=dict(expected_out=want.split("\n")[:-1], expected_status=0, src="\n".join("// file %s\n%s" % kv for kv in files.items()),
                                              original=files["main.tsh"], renaming="equally spelled names in two files of the same base name", reserved=[])))
@@ -476,12 +498,16 @@ def run(res, b, tier, seed):
     for role, t in ROLE_TEMPLATES.items():
         for i, nm in enumerate(["neutralname"] + [n for n in RESERVED_POOL if n not in KEYWORDS] + [n for n in LOOKALIKE_POOL if not is_reserved(n)]):
             rsrc = t % dict(X=nm)
-            known = is_reserved(nm) and in_region(nm, "X", {"X"} if role in ("local", "param") else set(), {"X"} if role == "function" else set())
+            if role in ROLE_REGIONS:
+                known = is_reserved(nm) and (bool(re.fullmatch(ROLE_REGIONS[role], nm)) or nm in SHELL_VARS_COLLIDE)
+            else:
+                known = is_reserved(nm) and in_region(nm, "X", {"X"} if role in ("local", "param") else set(), {"X"} if role == "function" else set())
             cases.append(pipeline.Case("role-%s-%d" % (role, i), {"main.tsh": rsrc.encode()},
                                        meta=dict(expected_out=ROLE_EXPECTED[role], expected_status=0, src=rsrc, original=t % dict(X="neutralname"),
                                                  renaming="the identifier X of the role program (%s) spelled %s" % (role, nm),
                                                  reserved=[nm] if is_reserved(nm) else [], reserved_known=[nm] if known else [])))
     dis, fails = semcheck.check_cases(b, cases, stages="asw")
+    dis += [(c, "batch script: " + c.meta.get("model_batch", "")[:300], str(c.out.get("BATCH"))[:300]) for c in pipeline.batch_disagreements(b, cases)]
     # Batch target, metamorphic: the script of a renamed program must behave (under the cmd model) like the script of the program
     # as generated - whatever that behaviour is (64-bit literals etc. are outside the cmd model's reference, equality is not)
     groups = {}
